@@ -172,7 +172,7 @@ class AccessScheduler:
             return
         with self.cv:
             deadline = time.time() + 5.0
-            while True:
+            while not self.stuck:       # once infeasible: no more waiting, everybody runs freely
                 self._skip_finished()
                 if self.pos >= len(self.order) or self.order[self.pos] == me:
                     break
@@ -239,6 +239,8 @@ class LineScheduler:
         return self.turns[self.pos][0] if self.pos < len(self.turns) else None
 
     def line(self, me):
+        if self.stuck:              # the schedule proved infeasible: let everybody run freely from here on
+            return
         with self.cv:
             deadline = time.time() + 5.0
             while True:
@@ -423,14 +425,25 @@ def in_cold_child(fn):
         finally:
             os._exit(code)
     os.close(w)
+    import select
+    import signal
     chunks = []
+    deadline = time.time() + 240.0
+    timed_out = False
     while True:
+        left = deadline - time.time()
+        if left <= 0 or not select.select([r], [], [], left)[0]:
+            timed_out = True          # a run that does not end (threads blocked on each other): give up on it
+            os.kill(pid, signal.SIGKILL)
+            break
         b = os.read(r, 1 << 16)
         if not b:
             break
         chunks.append(b)
     os.close(r)
     _, status = os.waitpid(pid, 0)
+    if timed_out:
+        return {"stuck": True, "outs": [], "lines": [], "log": [], "init": []}
     if status != 0 or not chunks:
         raise RuntimeError(f"cold child failed (status {status})")
     return json.loads(b"".join(chunks))
